@@ -522,12 +522,10 @@ func (h *H) Step(line string) {
 		}
 		h.result(try(func() {
 			evt := h.w.Event(ecs.EventType(ev))
-			var cs []ecs.Comp
-			for _, rc := range a.comps {
-				cs = append(cs, rc.info.c)
-			}
+			cs := h.scratchComps(a.comps)
 			if len(cs) > 0 {
 				evt = evt.For(cs...)
+				h.poisonComps()
 			}
 			evt.Emit(e)
 		}), "")
@@ -812,18 +810,11 @@ func (h *H) doFilter(toks []string) {
 				return
 			}
 			f := ecs.NewFilter0(h.w)
-			var cs []ecs.Comp
-			for _, c := range with {
-				cs = append(cs, c.info.c)
-			}
-			f = f.With(cs...)
+			f = f.With(h.scratchComps(with)...)
 			if hasWo && len(without) > 0 {
-				var ws []ecs.Comp
-				for _, c := range without {
-					ws = append(ws, c.info.c)
-				}
-				f = f.Without(ws...)
+				f = f.Without(h.scratchComps(without)...)
 			}
+			h.poisonComps()
 			if excl {
 				f = f.Exclusive()
 			}
@@ -872,11 +863,7 @@ func (h *H) doObs(toks []string) {
 		if !ok {
 			return nil
 		}
-		var out []ecs.Comp
-		for _, c := range cs {
-			out = append(out, c.info.c)
-		}
-		return out
+		return h.scratchComps(cs)
 	}
 	o := ecs.Observe(evt)
 	if cs := get("for"); len(cs) > 0 {
@@ -891,6 +878,7 @@ func (h *H) doObs(toks []string) {
 	if hasFlag(toks[3:], "excl") {
 		o = o.Exclusive()
 	}
+	h.poisonComps()
 	oo := &obsObj{o: o}
 	if s, ok := optVal(toks[3:], "script"); ok {
 		for _, p := range splitList(s) {
